@@ -89,6 +89,12 @@ def judgeLine (caseId : String) (op : String) (outs : List String) : String × L
   -- the page an encode returned is unchanged after the next page has been encoded
   | ["twoenc"] =>
     if outs.any (· == "changed") then (caseId, [s!"VIOLATION case={caseId} sig=page:encoded-page-changed-by-next-encode"]) else (caseId, [])
+  -- the same logical node held differently in memory (cells a split left behind, physical cell order that
+  -- differs from the slot order) is written as the same page
+  | ["physvariant"] =>
+    match outs.find? (·.startsWith "differs") with
+    | some d => (caseId, [s!"VIOLATION case={caseId} sig=page:readback-depends-on-the-cell-slice {(d.take 200).toString}"])
+    | none => (caseId, [])
   | _ => (caseId, [])
 
 end Mkdb.Driver.Page
